@@ -858,8 +858,8 @@ def run(res, tier, seed, proofs_ok):
 def _run(res, tier, seed, proofs_ok):
     rng = random.Random(seed)
     quick = tier == 'quick'
-    per_tag = 48 if quick else 600
-    n_bad = 420 if quick else 5000
+    per_tag = 48 if quick else 450
+    n_bad = 420 if quick else 3500
     res.rule = ('one surface card per case: every mnemonic of the mcnp2cad '
                 'table in every form (4- and 9-entry P, K with/without sheet '
                 'selector, 5/6-entry tori, 2/4-entry X/Y/Z incl. plane, '
